@@ -90,6 +90,10 @@ impl Parser {
                 .next()
                 .expect("Input schemas unexpectedly empty")
                 .to_owned();
+            // Verification hook: let a harness decide which pending schema is parsed next
+            // (the map's iteration order is otherwise random per run).
+            #[cfg(feature = "verif-hooks")]
+            let next_name = crate::verif::pick_pending(&self.input_schemas).unwrap_or(next_name);
             let (name, value) = self
                 .input_schemas
                 .remove_entry(&next_name)
